@@ -289,11 +289,11 @@ impl Report {
             known_hits.len(),
             evpath.display()
         );
-        if !self.machinery_errors.is_empty() {
-            return 2;
-        }
+        // a violation found on the real code takes precedence over a machinery complaint
         if n_fresh > 0 {
             1
+        } else if !self.machinery_errors.is_empty() {
+            2
         } else {
             0
         }
